@@ -523,3 +523,179 @@ Proof.
   destruct x; cbn [relem_tree relem_substvars app]; rewrite ?node_is_wtree; try exact IH.
   change (node_is SUBSTVAR (subst_node body)) with true. cbn [map]. now rewrite IH.
 Qed.
+
+(* ------------------------------------------------------------------ norm: the text of the parts *)
+Lemma rt_app a b : rttext_of (a ++ b) = rttext_of a ++ rttext_of b.
+Proof. unfold rttext_of. now rewrite map_app, concat_app. Qed.
+Lemma rt_cons k s r : rttext_of ((k, s) :: r) = s ++ rttext_of r.
+Proof. reflexivity. Qed.
+Lemma rt_ws_toks s : rttext_of (ws_toks s) = s.
+Proof.
+  unfold rttext_of. induction s as [|c r IH]; [reflexivity|]. cbn [ws_toks]. destruct (c =? 10)%N.
+  - cbn [map concat snd app]. now rewrite IH.
+  - destruct (ws_toks r) as [|[k w] ts]; [cbn in *; now subst r|].
+    destruct k; cbn [map concat snd app] in *; now rewrite <- IH.
+Qed.
+Lemma rt_relex w : rttext_of (relex w) = wstext w.
+Proof. apply rt_ws_toks. Qed.
+Lemma texts_one (t : rtree) : texts [t] = text t.
+Proof. unfold texts. cbn [flat_map]. apply app_nil_r. Qed.
+Lemma texts_elems' l : texts (elems l) = rttext_of l.
+Proof. rewrite texts_elems. reflexivity. Qed.
+Lemma text_qual_node q : text (qual_node q) = rttext_of (aqual_body q).
+Proof.
+  unfold qual_node, aqual_node, aqual_body. rewrite text_node, texts_cons, text_tok, texts_app, texts_elems', texts_one, text_tok.
+  unfold t_colon. rewrite rt_cons, rt_app. unfold rttext_of at 3. cbn [map concat snd]. now rewrite app_nil_r.
+Qed.
+Lemma text_vnode v : text (vnode v) = rttext_of (aver_body_toks v).
+Proof.
+  unfold vnode, aver_node, aver_body_toks. rewrite text_node, texts_cons, text_tok, rt_cons. f_equal.
+  rewrite !texts_app, !texts_elems', texts_one, text_node, texts_elems', !rt_app. reflexivity.
+Qed.
+Lemma text_arch_node g : text (arch_node g) = rttext_of (agroup_body_toks g).
+Proof. unfold arch_node, agroup_node. now rewrite text_node, texts_elems'. Qed.
+Lemma text_prof_node g : text (prof_node g) = rttext_of (pgroup_body_toks g).
+Proof. unfold prof_node, pgroup_node. now rewrite text_node, texts_elems'. Qed.
+Lemma text_subst_node' body : text (subst_node body) = rttext_of (asubst_toks body).
+Proof. unfold subst_node, asubst_node. now rewrite text_node, texts_elems'. Qed.
+Lemma texts_part {A} (f : A -> rtree) o : texts (part f o) = match o with Some (w, a) => wstext w ++ text (f a) | None => [] end.
+Proof. destruct o as [[w a]|]; [|reflexivity]. cbn [part]. now rewrite texts_app, texts_wtrees, texts_one. Qed.
+
+Lemma rel_text_nrel r extra : rttext_of (arel_toks (nrel r extra)) = text (lrel_tree r) ++ extra.
+Proof.
+  unfold lrel_tree. rewrite text_node. unfold lrel_children, arel_toks, arel_core_toks, nrel. cbn [a_name a_qual a_ver a_archs a_profs a_trail].
+  rewrite texts_cons, text_tok, !texts_app, !texts_part, texts_wtrees. rewrite rt_app, rt_cons, !rt_app, rt_ws_toks. rewrite <- !app_assoc. f_equal.
+  f_equal; [destruct (l_qual r) as [[w q]|]; [|reflexivity]; cbn [option_map opt_toks fst snd]; unfold aqual_toks; cbn [aq_ws0 aq_ws1 aq_name];
+            rewrite rt_app, rt_relex, text_qual_node; reflexivity|].
+  f_equal; [destruct (l_ver r) as [[w v]|]; [|reflexivity]; cbn [option_map opt_toks fst snd]; unfold aver_toks; cbn [av_ws0];
+            rewrite rt_app, rt_relex, text_vnode; reflexivity|].
+  f_equal; [destruct (l_archs r) as [[w g]|]; [|reflexivity]; cbn [option_map opt_toks fst snd]; unfold agroup_toks; cbn [ag_ws0];
+            rewrite rt_app, rt_relex, text_arch_node; reflexivity|].
+  f_equal. induction (l_profs r) as [|[w g] ps IH]; [reflexivity|]. cbn [map flat_map fst snd]. rewrite texts_app, rt_app, IH. f_equal.
+  unfold prof_part, pgroup_toks. cbn [fst snd pg_ws0]. rewrite texts_app, texts_wtrees, texts_one, rt_app, rt_relex, text_prof_node. reflexivity.
+Qed.
+Lemma nalts_text alts : forall prev extra,
+  rttext_of (arels_toks (fst (nalts prev alts extra)) (snd (nalts prev alts extra))) =
+  text (lrel_tree prev) ++ texts (flat_map alt_part alts) ++ extra.
+Proof.
+  induction alts as [|[[w1 w2] r] rest IH]; intros prev extra; cbn [nalts].
+  - cbn [fst snd arels_toks flat_map]. now rewrite app_nil_r, rel_text_nrel.
+  - specialize (IH r extra). destruct (nalts r rest extra) as [r' more]. cbn [fst snd arels_toks flat_map] in *.
+    rewrite rt_app, rel_text_nrel, rt_cons, rt_app, rt_relex, IH. rewrite texts_app. rewrite (alt_part_eq w1 w2 r).
+    rewrite !texts_app, texts_wtrees, texts_cons, texts_wtrees, texts_one. cbn [t_pipe text].
+    rewrite <- !app_assoc. cbn [app]. rewrite <- ?app_assoc. reflexivity.
+Qed.
+Lemma item_text_nentry e extra : rttext_of (aitem_toks (nentry e extra)) = text (lentry_tree e) ++ extra.
+Proof.
+  unfold nentry. pose proof (nalts_text (e_alts e) (e_first e) (wstext (e_trail e) ++ extra)) as H.
+  destruct (nalts (e_first e) (e_alts e) (wstext (e_trail e) ++ extra)) as [r alts]. cbn [fst snd aitem_toks] in *. rewrite H.
+  unfold lentry_tree. rewrite text_node. unfold lentry_children. rewrite texts_cons, texts_app, texts_wtrees.
+  now rewrite <- !app_assoc.
+Qed.
+
+(* ------------------------------------------------------------------ norm: the shape of the segments *)
+Definition comma_free (l : lroot) : bool := forallb (fun x => negb (is_rc x)) l.
+Definition seg_good (need : bool) (sg : lroot) : Prop := comma_free sg = true /\ exists s, sep_run need sg = Some s.
+
+Lemma segments_cons x r : is_rc x = false ->
+  exists s ss, segments r = s :: ss /\ segments (x :: r) = (x :: s) :: ss.
+Proof.
+  intros Hx. assert (Hne : exists s ss, segments r = s :: ss).
+  { destruct r as [|y r']; [now exists [], []|]. cbn [segments]. destruct y; try (destruct (segments r'); eauto); eauto. }
+  destruct Hne as (s & ss & E). exists s, ss. split; [exact E|]. destruct x; try discriminate; cbn [segments]; now rewrite E.
+Qed.
+Lemma segments_good l : forall need s, sep_run need l = Some s ->
+  exists s0 ss, segments l = s0 :: ss /\ seg_good need s0 /\ Forall (seg_good false) ss.
+Proof.
+  induction l as [|x r IH]; intros need s H.
+  - exists [], []. repeat split; eauto.
+  - destruct x as [w| |e|body].
+    + cbn [sep_run] in H. destruct (IH _ _ H) as (s0 & ss & E & (C & s1 & G) & F).
+      destruct (segments_cons (RW w) r eq_refl) as (s0' & ss' & E1 & E2). rewrite E in E1. injection E1 as <- <-.
+      exists (RW w :: s0), ss. repeat split; auto. exists s1. exact G.
+    + cbn [sep_run] in H. destruct (IH _ _ H) as (s0 & ss & E & G & F).
+      exists [], (s0 :: ss). cbn [segments]. rewrite E. repeat split; cbn [sep_run]; eauto.
+    + cbn [sep_run] in H. destruct need; [discriminate|]. destruct (IH _ _ H) as (s0 & ss & E & (C & s1 & G) & F).
+      destruct (segments_cons (RE e) r eq_refl) as (s0' & ss' & E1 & E2). rewrite E in E1. injection E1 as <- <-.
+      exists (RE e :: s0), ss. repeat split; auto. exists s1. exact G.
+    + cbn [sep_run] in H. destruct need; [discriminate|]. destruct (IH _ _ H) as (s0 & ss & E & (C & s1 & G) & F).
+      destruct (segments_cons (RS body) r eq_refl) as (s0' & ss' & E1 & E2). rewrite E in E1. injection E1 as <- <-.
+      exists (RS body :: s0), ss. repeat split; auto. exists s1. exact G.
+Qed.
+Lemma take_ws_text l : texts (map rt l) = fst (take_ws l) ++ texts (map rt (snd (take_ws l))).
+Proof.
+  induction l as [|x r IH]; [reflexivity|]. destruct x as [w| | |]; try reflexivity.
+  cbn [take_ws]. destruct (take_ws r) as [s r'] eqn:E. cbn [fst snd map relem_tree] in *. rewrite texts_cons, IH.
+  destruct w as [[|] x]; cbn [wtree wtext text]; now rewrite app_assoc.
+Qed.
+Lemma take_ws_rest_not_rw l w r : snd (take_ws l) <> RW w :: r.
+Proof.
+  induction l as [|x l' IH]; [discriminate|]. destruct x; try discriminate.
+  cbn [take_ws]. destruct (take_ws l') as [s r'] eqn:E. exact IH.
+Qed.
+Lemma take_ws_all_ws l : forallb is_rw l = true -> snd (take_ws l) = [].
+Proof.
+  induction l as [|x r IH]; [reflexivity|]. cbn [forallb]. intros H. andb_hyps. destruct x; try discriminate.
+  cbn [take_ws]. specialize (IH H0). destruct (take_ws r). exact IH.
+Qed.
+Lemma take_ws_good need l : seg_good need l -> seg_good need (snd (take_ws l)).
+Proof.
+  induction l as [|x r IH]; [auto|]. intros (C & s & G). destruct x; try (split; eauto; fail).
+  cbn [take_ws]. destruct (take_ws r) as [w' r'] eqn:E. cbn [snd] in *. apply IH. cbn [comma_free forallb sep_run] in *. andb_hyps. split; eauto.
+Qed.
+Lemma after_item_all_ws r : comma_free r = true -> (exists s, sep_run true r = Some s) -> forallb is_rw r = true.
+Proof.
+  induction r as [|x r IH]; [reflexivity|]. cbn [comma_free forallb]. intros C (s & G). andb_hyps.
+  destruct x; try discriminate. cbn [sep_run is_rw andb] in *. apply IH; eauto.
+Qed.
+Inductive seg_shape : lroot -> Prop :=
+| shape_empty : seg_shape []
+| shape_item x r : is_item x = true -> forallb is_rw r = true -> seg_shape (x :: r).
+Lemma good_shape sg : seg_good false sg -> seg_shape (snd (take_ws sg)).
+Proof.
+  intros H. apply take_ws_good in H. destruct H as (C & s & G).
+  destruct (snd (take_ws sg)) as [|x r] eqn:E; [constructor|].
+  destruct x as [w| |e|body].
+  - exfalso. eapply take_ws_rest_not_rw. exact E.
+  - discriminate.
+  - constructor; [reflexivity|]. cbn [comma_free forallb sep_run] in *. andb_hyps. apply after_item_all_ws; eauto.
+  - constructor; [reflexivity|]. cbn [comma_free forallb sep_run] in *. andb_hyps. apply after_item_all_ws; eauto.
+Qed.
+
+Lemma nseg_text sg : seg_good false sg -> rttext_of (fst (nseg sg)) ++ rttext_of (aitem_toks (snd (nseg sg))) = texts (map rt sg).
+Proof.
+  intros H. pose proof (good_shape sg H) as Hs. rewrite (take_ws_text sg). unfold nseg.
+  destruct (take_ws sg) as [w rest]. cbn [fst snd] in *. rewrite rt_ws_toks. f_equal.
+  destruct Hs as [|x r Hx Hr]; [reflexivity|]. pose proof (take_ws_text r) as Hr'. rewrite (take_ws_all_ws r Hr) in Hr'. cbn [map] in Hr'.
+  rewrite texts_nil, app_nil_r in Hr'.
+  destruct x as [w0| |e|body]; try discriminate; cbn [nitem map relem_tree]; rewrite texts_cons, Hr'.
+  - apply item_text_nentry.
+  - cbn [aitem_toks]. now rewrite rt_app, rt_ws_toks, text_subst_node'.
+Qed.
+Lemma items_text_flat more : forall i,
+  rttext_of (aitems_toks i more) = rttext_of (aitem_toks i) ++ flat_map (fun wi => 44%N :: rttext_of (fst wi) ++ rttext_of (aitem_toks (snd wi))) more.
+Proof.
+  induction more as [|[w i'] more IH]; intros i; cbn [aitems_toks flat_map]; [now rewrite !app_nil_r|].
+  rewrite rt_app, rt_cons, rt_app, IH. cbn [fst snd app]. now rewrite <- ?app_assoc.
+Qed.
+Lemma segments_text l : forall s0 ss, segments l = s0 :: ss ->
+  texts (map rt l) = texts (map rt s0) ++ flat_map (fun sg => 44%N :: texts (map rt sg)) ss.
+Proof.
+  induction l as [|x r IH]; intros s0 ss E.
+  - cbn in E. injection E as <- <-. reflexivity.
+  - destruct (is_rc x) eqn:Ex.
+    + destruct x; try discriminate. cbn [segments] in E. injection E as <- <-.
+      destruct (segments r) as [|s1 ss1] eqn:E1.
+      * exfalso. destruct r as [|y r']; [discriminate|]. cbn [segments] in E1. destruct y; try discriminate; destruct (segments r'); discriminate.
+      * cbn [map relem_tree flat_map]. rewrite texts_cons, (IH _ _ eq_refl). reflexivity.
+    + destruct (segments_cons x r Ex) as (s & ss' & E1 & E2). rewrite E2 in E. injection E as <- <-.
+      cbn [map]. rewrite !texts_cons, (IH _ _ E1). now rewrite app_assoc.
+Qed.
+Theorem arender_norm b l : lwf b l = true -> arender (norm l) = text (ltree l).
+Proof.
+  intros H. destruct (lwf_split _ _ H) as (_ & s & Hs). destruct (segments_good l false s Hs) as (s0 & ss & E & G0 & G).
+  unfold ltree. rewrite text_node, (segments_text l s0 ss E). unfold norm. rewrite E. cbn [map].
+  destruct (nseg s0) as [w i] eqn:E0. unfold arender, atoks. cbn [af_lead af_first af_rest]. rewrite rt_app, items_text_flat, app_assoc.
+  pose proof (nseg_text s0 G0) as H0. rewrite E0 in H0. cbn [fst snd] in H0. rewrite H0. f_equal.
+  clear E. induction G as [|sg ss' Hg _ IH]; [reflexivity|]. cbn [map flat_map]. rewrite IH. now rewrite (nseg_text sg Hg).
+Qed.
